@@ -308,11 +308,15 @@ def digit_chain(L, R, tier):
                         shapes.append(s2)
                 for sh in shapes:
                     N = sh['N']
+                    c = box.get(N, mtype, cpu, 'values')
+                    c.m.record = N <= 8          # the access events are not used by this clause (and are many for large N)
                     try:
                         r = box.instantiate(name, sh, cpu, mtype, expand='values')
                     except (Unsupported, NeedEnum) as e:
                         R.broke('%s %s: %s' % (name, sh, e))
                         continue
+                    finally:
+                        c.m.record = True
                     nruns += 1
                     if r.status != 'ok':
                         bad = bad or (sh, 'call %s' % (r.status,))
